@@ -3,6 +3,7 @@ package main
 import (
 	"fmt"
 	"go/token"
+	"go/types"
 	"strings"
 
 	"golang.org/x/tools/go/ssa"
@@ -138,6 +139,10 @@ func runC08(c *Ctx) {
 // must be reachable only through an edge that establishes a sufficient length:
 // x := y.To4() with x != nil (length 4), or len(x) == C with C > index.
 func (c *Ctx) checkConstIndexGuards(rule string, fns []*ssa.Function) {
+	c.checkConstIndexGuardsOpt(rule, fns, true)
+}
+
+func (c *Ctx) checkConstIndexGuardsOpt(rule string, fns []*ssa.Function, requireSome bool) {
 	p := c.P
 	n := 0
 	for _, fn := range fns {
@@ -148,6 +153,12 @@ func (c *Ctx) checkConstIndexGuards(rule string, fns []*ssa.Function) {
 				x, idx = v.X, v.Index
 			case *ssa.Index:
 				x, idx = v.X, v.Index
+			case *ssa.Lookup:
+				// s[k] on a string
+				if bt, okb := v.X.Type().Underlying().(*types.Basic); !okb || bt.Info()&types.IsString == 0 {
+					return
+				}
+				x, idx = v.X, v.Index
 			default:
 				return
 			}
@@ -155,11 +166,15 @@ func (c *Ctx) checkConstIndexGuards(rule string, fns []*ssa.Function) {
 			if !ok {
 				return
 			}
+			if _, isConst := x.(*ssa.Const); isConst {
+				return
+			}
 			if _, isSlice := x.Type().Underlying().(interface{ Elem() interface{} }); isSlice {
 				_ = isSlice
 			}
 			ts := x.Type().Underlying().String()
-			if !strings.HasPrefix(ts, "[]") {
+			isStr := ts == "string"
+			if !strings.HasPrefix(ts, "[]") && !isStr {
 				return // arrays are checked by the compiler
 			}
 			// covered by the library-table rule for Split/FindStringSubmatch results (checkConstIndexes)
@@ -186,6 +201,27 @@ func (c *Ctx) checkConstIndexGuards(rule string, fns []*ssa.Function) {
 			if k == 0 {
 				edges = append(edges, eqEdges(fn, false, isLenX, func(v ssa.Value) bool { j, okj := constInt(v); return okj && j == 0 })...)
 			}
+			if isStr {
+				// s != "" / s == "" (index 0), strings.HasPrefix(s, c) with len(c) > k
+				if k == 0 {
+					edges = append(edges, condEdges(fn, false, func(a Atom) bool {
+						if a.Op != token.EQL {
+							return false
+						}
+						e1, ok1 := constString(a.Y)
+						e2, ok2 := constString(a.X)
+						return (ok1 && e1 == "" && (a.X == x || sameLoad(a.X, x))) || (ok2 && e2 == "" && (a.Y == x || sameLoad(a.Y, x)))
+					})...)
+				}
+				edges = append(edges, boolEdges(fn, true, func(v ssa.Value) bool {
+					cc, _, okc := callResult(v)
+					if !okc || calleeName(cc) != "strings.HasPrefix" {
+						return false
+					}
+					pre, okp := constString(cc.Call.Args[1])
+					return okp && int64(len(pre)) > k && (cc.Call.Args[0] == x || sameLoad(cc.Call.Args[0], x))
+				})...)
+			}
 			// x = y.To4(), x != nil
 			if cc, _, okc := callResult(x); okc && calleeName(cc) == "(net.IP).To4" && k < 4 {
 				edges = append(edges, nilCheckEdges(fn, false, func(v ssa.Value) bool { return v == x })...)
@@ -205,11 +241,15 @@ func (c *Ctx) checkConstIndexGuards(rule string, fns []*ssa.Function) {
 			})...)
 			path := reachableWithout(fn, in, edges)
 			c.check(len(edges) > 0 && path == nil, rule, key, p.instrPos(in), "behind an edge that establishes the length",
-				"a byte of the address is indexed on a path that does not establish that the slice is long enough: a nil or short IP (e.g. from a malformed or mDNS candidate) makes the stripping step panic", p.pathString(path)...)
+				"a constant index is used on a path that does not establish that the slice or string is long enough: a nil, empty or short value (a malformed or mDNS candidate, a blank message) makes the function panic", p.pathString(path)...)
 		})
 	}
 	if n == 0 {
-		c.undecided(rule, "constant indexes", "-", "none found (expected the byte tests of IsLocal)")
+		if requireSome {
+			c.undecided(rule, "constant indexes", "-", "none found (expected the byte tests of IsLocal)")
+		} else {
+			c.okTrivial(rule, "constant indexes", "-", "none in the analysed functions")
+		}
 	}
 }
 
